@@ -282,7 +282,7 @@ let check_decode (u : uni) (v : verdict) (sid : int) (model : (val0 * n) dres) (
 let sid_of (u : uni) (name : string) : int =
   try Hashtbl.find u.names name with Not_found -> failwith ("unknown type " ^ name)
 
-let judge_case (u : uni) (case : sx) (obs : sx list) : verdict =
+let rec judge_case (u : uni) (case : sx) (obs : sx list) : verdict =
   let v = { tags = []; detail = [] } in
   (match obs with
    | [L (A "crash" :: A msg :: _)] -> fail v "crash" ("impl process died: " ^ string_of_hex msg)
@@ -474,6 +474,141 @@ let judge_case (u : uni) (case : sx) (obs : sx list) : verdict =
               | "nilptr" -> ("ok", "ok", "err")       (* a nil *T encodes as an empty struct; decoding into nil is refused *)
               | _ -> ("panic", "err", "err") in
             if (sz, e, d) <> want then fail v "prop-badarg" (Printf.sprintf "%s: got %s %s %s" kind sz e d)
+        | _ -> fail v "harness" "unparsable observation")
+   | L (A "span" :: reqs) ->
+       let rq = List.map (function L [A n; A a] -> (n_of_string n, n_of_string a) | _ -> failwith "span req") reqs in
+       let model = List.map (fun g -> (int_of_n g.rg_blk, int_of_n g.rg_off)) (span_run span_init rq) in
+       (match obs with
+        | [L (A "ok" :: rs)] ->
+            let impl = List.map (function L [A b; A o; A _] -> (int_of_string b, int_of_string o) | _ -> (-1, -1)) rs in
+            if impl <> model then fail v "corr-span" (Printf.sprintf "span: model %s impl %s"
+              (String.concat " " (List.map (fun (b, o) -> Printf.sprintf "%d:%d" b o) model))
+              (String.concat " " (List.map (fun (b, o) -> Printf.sprintf "%d:%d" b o) impl)))
+        | _ -> fail v "harness" "unparsable observation")
+   | L (A "bitset" :: ops) ->
+       let os = List.map (function L [A o; A i] -> (n_of_string o, n_of_string i) | _ -> failwith "bitset op") ops in
+       let model = List.map (fun b -> if b then "1" else "0") (bs_run bs_zero os) in
+       (match obs with
+        | [L (A "ok" :: rs)] ->
+            let impl = List.map (function A x -> x | _ -> "?") rs in
+            if impl <> model then fail v "corr-bitset" (Printf.sprintf "bitset: model %s impl %s" (String.concat "" model) (String.concat "" impl))
+        | _ -> fail v "harness" "unparsable observation")
+   | L (A "descmap" :: ops) ->
+       let os = List.map (function
+         | L [A o; A k; A x] -> ((n_of_string o, n_of_string k), n_of_string x)
+         | L [A o; A k] -> ((n_of_string o, n_of_string k), N0)
+         | _ -> failwith "descmap op") ops in
+       let model = List.map string_of_n (dm_run dm_empty os) in
+       (match obs with
+        | [L (A "ok" :: rs)] ->
+            let impl = List.map (function A x -> x | _ -> "?") rs in
+            if impl <> model then fail v "corr-descmap" (Printf.sprintf "descmap: model %s impl %s" (String.concat " " model) (String.concat " " impl))
+        | _ -> fail v "harness" "unparsable observation")
+   | L (A "unknown" :: A hx :: adds) ->
+       let b = string_of_hex hx in
+       let model = String.concat "" (List.map (function
+         | L [A o; A z] -> (try String.sub b (int_of_string o) (int_of_string z) with _ -> "<out-of-range>")
+         | _ -> "") adds) in
+       (match obs with
+        | [L [A "ok"; A h]] -> if string_of_hex h <> model then fail v "corr-unknown" "unknown-field copy differs"
+        | _ -> fail v "harness" "unparsable observation")
+   | L [A "dispatch"] ->
+       (match obs with
+        | [L [A "ok"; A joined]] ->
+            let ents = List.filter (fun x -> x <> "") (String.split_on_char ';' joined) in
+            let clean x = List.filter (fun y -> y <> "") (String.split_on_char '_' x) in
+            let maps = List.filter_map (fun e -> match clean e with "map" :: k :: vv :: name -> Some ((int_of_string k, int_of_string vv), String.concat "_" name) | _ -> None) ents in
+            let lists = List.filter_map (fun e -> match clean e with "list" :: k :: name -> Some (int_of_string k, String.concat "_" name) | _ -> None) ents in
+            let mtab = List.map (fun ((k, vv), r) -> ((int_of_n k, int_of_n vv), int_of_n r)) map_dispatch_tab in
+            let ltab = List.map (fun (k, r) -> (int_of_n k, int_of_n r)) list_dispatch_tab in
+            let keys l = List.sort compare (List.map fst l) in
+            if keys maps <> keys mtab then fail v "corr-dispatch" "registered map (key,value) kinds differ from gen/Tables.v";
+            if keys lists <> keys ltab then fail v "corr-dispatch" "registered list element kinds differ from gen/Tables.v";
+            (* two kind pairs share a routine in the implementation iff they share one in the table *)
+            let same_part a b = List.for_all (fun (k1, x1) -> List.for_all (fun (k2, x2) ->
+              (x1 = x2) = (List.assoc k1 b = List.assoc k2 b)) a) a in
+            if keys maps = keys mtab && not (same_part maps mtab) then fail v "corr-dispatch" "map routine sharing differs from gen/Tables.v";
+            if keys lists = keys ltab && not (same_part lists ltab) then fail v "corr-dispatch" "list routine sharing differs from gen/Tables.v"
+        | _ -> fail v "harness" "unparsable observation")
+   | L [A ("mem" | "keep" as op); A tname; A hx] ->
+       let sid = sid_of u tname in
+       let nsid = n_of_int sid in
+       let bs = bytes_of_hex hx in
+       let md = decode_object u.env [] nsid bs (fresh u.env nsid) in
+       (match obs with
+        | dobs :: L (A "problems" :: probs) :: rest ->
+            check_decode u v sid md dobs "corr-";
+            List.iter (function A p -> fail v "prop-memory" p | _ -> ()) probs;
+            if op = "mem" then begin
+              match md, rest with
+              | DOk ((mv, _), _), [L (A "inbuf" :: inb); A flipout; L (A "flips" :: flips)] ->
+                  (* expected: exactly the non-empty nocopy string/binary fields view the buffer *)
+                  let tok p = if p = "" then "-" else
+                    String.map (fun c -> match c with ' ' -> '_' | '(' -> '<' | ')' -> '>' | c -> c) p in
+                  let exp = ref [] in
+                  let rec walk (t : ty) (x : val0) (path : string) (nc : bool) =
+                    match t, x with
+                    | TPtr t', VP (Some x') -> walk t' x' (path ^ "*") nc
+                    | (TString | TBinary), VB (_, s) -> if nc && s <> [] then exp := (tok path, List.length s) :: !exp
+                    | TList (_, e), VL (Some l) -> List.iteri (fun i y -> walk e y (Printf.sprintf "%s[%d]" path i) false) l
+                    | TMap (kt, vt), VM (Some m) ->
+                        List.iter (fun (k, y) ->
+                          let ks = str_of_val (canon_val k) in
+                          walk kt k (path ^ "{k:" ^ ks ^ "}") false; walk vt y (path ^ "{v:" ^ ks ^ "}") false) m
+                    | TStruct s', VT (fs, _) ->
+                        let sd = List.nth u.env (int_of_n s') in
+                        let rec go fds vs ns = match fds, vs, ns with
+                          | f :: fr, y :: vr, nm :: nr -> walk f.fty y (path ^ "." ^ nm) f.fnocopy; go fr vr nr
+                          | _ -> () in
+                        go sd.sfields fs u.fnames.(int_of_n s')
+                    | _ -> () in
+                  walk (TStruct nsid) mv "" false;
+                  let got = List.filter_map (function L [A p; A _; A ln; A cp] -> Some (p, int_of_string ln, int_of_string cp) | _ -> None) inb in
+                  let expected = List.sort compare !exp in
+                  let gotpl = List.sort compare (List.map (fun (p, l, _) -> (p, l)) got) in
+                  if gotpl <> expected then
+                    fail v "prop-nocopy-set" (Printf.sprintf "pieces viewing the input: expected [%s] got [%s]"
+                      (String.concat " " (List.map (fun (p, l) -> Printf.sprintf "%s:%d" p l) expected))
+                      (String.concat " " (List.map (fun (p, l) -> Printf.sprintf "%s:%d" p l) gotpl)));
+                  List.iter (fun (p, l, c) -> if l <> c then fail v "prop-nocopy-cap" (Printf.sprintf "%s len %d cap %d" p l c)) got;
+                  if flipout <> "flip-outside:same" then fail v "prop-input-alias" "changing input bytes outside the nocopy values changed the decoded value";
+                  List.iter (function L [A p; A r] -> if r <> "changed" then fail v "prop-nocopy-view" (p ^ " does not follow the buffer") | _ -> ()) flips
+              | DOk _, _ -> fail v "harness" "unparsable mem observation"
+              | _, _ -> ()
+            end
+        | dobs :: _ -> check_decode u v sid md dobs "corr-"
+        | _ -> fail v "harness" "unparsable observation")
+   | L [A "recheck"] ->
+       (match obs with
+        | [L [A "ok"; A _; A bad]] -> if bad <> "0" then fail v "prop-memory-changed" (bad ^ " kept objects changed after later decodes / GC / buffer reuse")
+        | _ -> fail v "harness" "unparsable observation")
+   | L [A "decm"; A _; A _] ->
+       (match obs with
+        | [L [A r; A _; A inlen; A alloc; A usec]] ->
+            let l = int_of_string inlen and al = int_of_string alloc and us = int_of_string usec in
+            if r = "panic" then fail v "panic" "DecodeObject panicked";
+            if al > 4096 * (l + 1) + (1 lsl 20) then fail v "prop-alloc" (Printf.sprintf "allocated %d bytes for %d input bytes" al l);
+            if us > 200 * (l + 1) + 2_000_000 then fail v "prop-time" (Printf.sprintf "%d us for %d input bytes" us l)
+        | _ -> fail v "harness" "unparsable observation")
+   | L [A "allocs"; A _; _] ->
+       (match obs with
+        | [L [A "ok"; A s; A e]] -> if s <> "0" || e <> "0" then fail v "prop-allocs" (Printf.sprintf "EncodedSize %s, EncodeObject %s allocations per 20 calls" s e)
+        | L (A "panic" :: _) :: _ | L (A "sizepanic" :: _) :: _ -> fail v "panic" "encoder panicked"
+        | _ -> fail v "harness" "unparsable observation")
+   | L (A "legacy" :: A name :: rest) ->
+       let arg = match rest with A a :: _ -> a | _ -> "0" in
+       let want = match name with "SetMaxInlineDepth" | "SetMaxInlineILSize" -> arg | _ -> "0" in
+       (match obs with
+        | [L [A "ok"; A r]] -> if r <> want then fail v "prop-legacy" (Printf.sprintf "%s returned %s, expected %s" name r want)
+        | _ -> fail v "prop-legacy" (name ^ " failed"))
+   | L [A "env"] -> ()
+   | L (A "conc" :: A _ :: cs) ->
+       (match obs with
+        | [L (A "ok" :: rs)] when List.length rs = List.length cs ->
+            List.iter2 (fun c r ->
+              let sub = judge_case u c (match r with L l -> l | a -> [a]) in
+              List.iter2 (fun t d -> fail v t d) (List.rev sub.tags) (List.rev sub.detail)) cs rs
+        | [L [A "deadlock"]] -> fail v "prop-deadlock" "goroutines did not finish within 60 s"
         | _ -> fail v "harness" "unparsable observation")
    | _ -> fail v "harness" "unknown case");
   v
